@@ -31,6 +31,48 @@ claim("C14", "exploration",
       "a per-input input/output relation with a cheap exact oracle.",
       TRUST_STACK, "DESIGN.md 4 C14")
 
+claim("C01", "exploration",
+      "runtime monitor: device-side reassembly of every stream compared with an independent "
+      "oracle over generated requests x chunk policies x hostile stop rules",
+      "Runs generated sign requests through the real server->protocol->APDU->ledgerblue stack "
+      "against a simulated device that records every chunk it is given; an oracle computed from "
+      "the request alone (own path encoder, own tx tokenizer, own varint/LE encoders) decides "
+      "whether each reassembled stream is exact and whether the reply's success and r/s agree "
+      "with what the device reported. Exploration: inputs x device policies are unbounded; "
+      "boundaries (255x255 proofs, 2^32-1 index, 2^64-1 outpoint, varint 252/253, PUSHDATA "
+      "forms) are generated deliberately.",
+      TRUST_STACK, "DESIGN.md 4 C01")
+
+claim("C04", "fault_enumeration",
+      "fault injection at every exchange index x status word / time-out / link error / bad "
+      "opcode, with reply-code oracles parsed from docs/protocol.md and firmware headers",
+      "Enumerates (request shape x exchange step x outcome) cells on fresh stacks: quick covers "
+      "every status word named in the firmware headers plus range edges and seeded random "
+      "ones, thorough all 65536 per step. Each cell's reply is checked against the documented "
+      "code set, the success rule, the exact code of named causes (at steps where the firmware "
+      "source can raise them) and the no-shutdown rule for the device error range.",
+      TRUST_STACK + " One fault per request. The firmware-error -> documented-cause table is a "
+      "reading of the enum comments.", "DESIGN.md 4 C04")
+
+claim("C05", "exploration",
+      "runtime monitor: blocks, metadata and brother lists reassembled by the simulated device "
+      "compared with values known by construction (own RLP, Keccak-256, SHA-256 midstate)",
+      "Generated advanceBlockchain/updateAncestorBlock requests are relayed by the real stack to "
+      "a device that records count, per-block metadata, header bytes and brothers; expected "
+      "values come from the generator's field lists and full coinbase transactions, hashed with "
+      "independent implementations. Device policies vary chunk sizes, brother requests, early/"
+      "partial stops.",
+      TRUST_STACK, "DESIGN.md 4 C05")
+
+claim("C13", "exploration",
+      "runtime monitor: field-by-field comparison of replies with random simulated device state, "
+      "selectors parsed from firmware headers; mode-transition scenarios for uiHeartbeat",
+      "Random device states are queried through the real stack (HID, SGX and TCP variants) and "
+      "every documented reply field is compared with the datum the device holds for the "
+      "firmware selector of that field; uiHeartbeat is run over normal and abnormal app-switch "
+      "transitions and must end in signer mode or answer -905.",
+      TRUST_STACK, "DESIGN.md 4 C13")
+
 
 def main():
     props = [json.loads(l) for l in open(os.path.join(HERE, "properties.jsonl"))]
